@@ -24,6 +24,7 @@ None == [none |-> TRUE]
 Has(i, c) == IF c = "a" THEN i % 2 = 1 \/ i % 5 = 0 ELSE i % 3 # 1
 Holds(q, i) == CASE q = "" -> TRUE [] q = "a" -> Has(i, "a") [] q = "b" -> Has(i, "b") [] q = "ab" -> Has(i, "a") /\ Has(i, "b")
 Filter(q, n) == {i \in 1..n : Holds(q, i)}
+FilterD(q, n, d) == Filter(q, n) \ d
 (* proper prefixes / suffixes of the cache key that ChunkCache.Search tries *)
 Narrower(q) == IF q = "ab" THEN {"a", "b"} ELSE {}
 
@@ -40,17 +41,22 @@ VARIABLES pushed, rdFin,
           mst, mreq, mdone, macc, msort, prevCount, mcache,       \* matcher
           ccache,      \* chunk cache: set of [c, key, items]
           tinput, tsort, tlist, edits,                            \* terminal
-          dev          \* deviation labels that fired
+          dev,         \* deviation labels that fired
+          deny,        \* coordinator: excluded items (denylist); requests carry a copy
+          gen,         \* coordinator: exclusion generation (minor revision), bumped by every exclusion it applies
+          mgen,        \* matcher: generation of the last request served (a change clears the merger cache)
+          wanted       \* ghost: items the user has excluded
 vars == <<pushed, rdFin, ebox, reading, snapCount, cq, csort, rbox, reqNo, mst, mreq, mdone, macc, msort, prevCount,
-          mcache, ccache, tinput, tsort, tlist, edits, dev>>
+          mcache, ccache, tinput, tsort, tlist, edits, dev, deny, gen, mgen, wanted>>
 
 Init == /\ pushed = 0 /\ rdFin = FALSE
-        /\ ebox = [readNew |-> FALSE, readFin |-> FALSE, searchNew |-> FALSE, searchFin |-> None]
+        /\ ebox = [readNew |-> FALSE, readFin |-> FALSE, searchNew |-> None, searchFin |-> None]
         /\ reading = TRUE /\ snapCount = 0 /\ cq = "" /\ csort = TRUE
         /\ rbox = [retry |-> None, reset |-> None] /\ reqNo = 0
         /\ mst = "idle" /\ mreq = None /\ mdone = {} /\ macc = {} /\ msort = TRUE /\ prevCount = 0
         /\ mcache = [q \in Queries |-> None] /\ ccache = {}
         /\ tinput = "" /\ tsort = TRUE /\ tlist = None /\ edits = 0 /\ dev = {}
+        /\ deny = {} /\ gen = 0 /\ mgen = 0 /\ wanted = {}
 
 -------------------------------------------------------------------------------
 (* Reader *)
@@ -58,30 +64,36 @@ RdPush == /\ ~rdFin /\ pushed < MaxItems
           /\ pushed' = pushed + 1
           /\ ebox' = [ebox EXCEPT !.readNew = TRUE]
           /\ UNCHANGED <<rdFin, reading, snapCount, cq, csort, rbox, reqNo, mst, mreq, mdone, macc, msort, prevCount, mcache,
-                         ccache, tinput, tsort, tlist, edits, dev>>
+                         ccache, tinput, tsort, tlist, edits, dev, deny, gen, mgen, wanted>>
 RdFin == /\ ~rdFin /\ rdFin' = TRUE
          /\ ebox' = [ebox EXCEPT !.readFin = TRUE]
          /\ UNCHANGED <<pushed, reading, snapCount, cq, csort, rbox, reqNo, mst, mreq, mdone, macc, msort, prevCount, mcache,
-                        ccache, tinput, tsort, tlist, edits, dev>>
+                        ccache, tinput, tsort, tlist, edits, dev, deny, gen, mgen, wanted>>
 
 -------------------------------------------------------------------------------
 (* Coordinator: the handlers, as functions on a record of the variables they touch *)
-Req(q, n, final, sort, no, cancel) == [q |-> q, count |-> n, final |-> final, sort |-> sort, no |-> no, cancel |-> cancel]
-CoState == [reading |-> reading, snapCount |-> snapCount, cq |-> cq, csort |-> csort, rbox |-> rbox, reqNo |-> reqNo, tlist |-> tlist]
+Req(q, n, final, sort, no, cancel, d, g) == [q |-> q, count |-> n, final |-> final, sort |-> sort, no |-> no, cancel |-> cancel,
+                                            deny |-> d, gen |-> g]
+CoState == [reading |-> reading, snapCount |-> snapCount, cq |-> cq, csort |-> csort, rbox |-> rbox, reqNo |-> reqNo, tlist |-> tlist,
+            deny |-> deny, gen |-> gen, ccache |-> ccache]
 
 HRead(s, fin) ==      \* EvtReadNew / EvtReadFin: snapshot, UpdateCount, matcher.Reset(..., cancel = false)
     LET rd == s.reading /\ ~fin
         no == s.reqNo + 1
     IN [s EXCEPT !.reading = rd, !.snapCount = pushed, !.cq = tinput, !.reqNo = no,
-                 !.rbox.retry = Req(tinput, pushed, ~rd, s.csort, no, FALSE)]
-HSearchNew(s) ==      \* EvtSearchNew: fresh snapshot, matcher.Reset(..., cancel = true)
+                 !.rbox.retry = Req(tinput, pushed, ~rd, s.csort, no, FALSE, s.deny, s.gen)]
+HSearchNew(s) ==      \* EvtSearchNew: apply exclusions (clear caches, bump the generation), fresh snapshot, Reset(cancel)
     LET no == s.reqNo + 1
-    IN [s EXCEPT !.csort = tsort, !.snapCount = pushed, !.cq = tinput, !.reqNo = no,
-                 !.rbox.reset = Req(tinput, pushed, ~s.reading, tsort, no, TRUE)]
+        add == ebox.searchNew.deny
+        d2 == s.deny \cup add
+        g2 == IF add # {} THEN s.gen + 1 ELSE s.gen
+    IN [s EXCEPT !.csort = ebox.searchNew.sort, !.snapCount = pushed, !.cq = tinput, !.reqNo = no, !.deny = d2, !.gen = g2,
+                 !.ccache = IF add # {} THEN {} ELSE s.ccache,
+                 !.rbox.reset = Req(tinput, pushed, ~s.reading, ebox.searchNew.sort, no, TRUE, d2, g2)]
 HSearchFin(s) == [s EXCEPT !.tlist = ebox.searchFin]      \* terminal.UpdateList
 
 Pending == (IF ebox.readFin THEN {"readFin"} ELSE IF ebox.readNew THEN {"readNew"} ELSE {})   \* ReadFin deletes ReadNew
-           \cup (IF ebox.searchNew THEN {"searchNew"} ELSE {}) \cup (IF ebox.searchFin # None THEN {"searchFin"} ELSE {})
+           \cup (IF ebox.searchNew # None THEN {"searchNew"} ELSE {}) \cup (IF ebox.searchFin # None THEN {"searchFin"} ELSE {})
 Handle(s, e) == CASE e = "readNew" -> HRead(s, FALSE) [] e = "readFin" -> HRead(s, TRUE)
                   [] e = "searchNew" -> HSearchNew(s) [] e = "searchFin" -> HSearchFin(s)
 RECURSIVE HandleAll(_, _)
@@ -93,23 +105,24 @@ CoWake == /\ Pending # {}
                LET s == HandleAll(CoState, order)
                IN /\ reading' = s.reading /\ snapCount' = s.snapCount /\ cq' = s.cq /\ csort' = s.csort
                   /\ rbox' = s.rbox /\ reqNo' = s.reqNo /\ tlist' = s.tlist
-          /\ ebox' = [readNew |-> FALSE, readFin |-> FALSE, searchNew |-> FALSE, searchFin |-> None]
-          /\ UNCHANGED <<pushed, rdFin, mst, mreq, mdone, macc, msort, prevCount, mcache, ccache, tinput, tsort, edits, dev>>
+                  /\ deny' = s.deny /\ gen' = s.gen /\ ccache' = s.ccache
+          /\ ebox' = [readNew |-> FALSE, readFin |-> FALSE, searchNew |-> None, searchFin |-> None]
+          /\ UNCHANGED <<pushed, rdFin, mst, mreq, mdone, macc, msort, prevCount, mcache, tinput, tsort, edits, dev, mgen, wanted>>
 
 -------------------------------------------------------------------------------
 (* Matcher *)
-Merger(r, items) == [q |-> r.q, count |-> r.count, final |-> r.final, sort |-> r.sort, items |-> items, no |-> r.no]
+Merger(r, items) == [q |-> r.q, count |-> r.count, final |-> r.final, sort |-> r.sort, items |-> items, no |-> r.no, deny |-> r.deny]
 Slots == {k \in {"retry", "reset"} : rbox[k] # None}
 Newest == CHOOSE k \in Slots : \A j \in Slots : rbox[j].no <= rbox[k].no
 
 (* after picking request r: cache decisions of Matcher.Loop; either publish at once or start scanning *)
 PickCont(r) ==
-    LET cleared == r.sort # msort
+    LET cleared == r.sort # msort \/ r.gen # mgen
         hit == ~cleared /\ r.count = prevCount /\ mcache[r.q] # None /\ mcache[r.q].final = r.final
         mc1 == IF cleared \/ r.count # prevCount THEN [q \in Queries |-> None] ELSE mcache
-        immediate == r.count = 0 \/ r.q = ""           \* EmptyMerger / PassMerger: no scan
-        m == IF hit THEN [mcache[r.q] EXCEPT !.final = r.final, !.no = r.no] ELSE Merger(r, Filter("", r.count))
-    IN /\ msort' = r.sort
+        immediate == r.count = 0 \/ (r.q = "" /\ r.deny = {})   \* EmptyMerger / PassMerger: no scan (a pattern with exclusions is never "empty")
+        m == IF hit THEN [mcache[r.q] EXCEPT !.final = r.final, !.no = r.no] ELSE Merger(r, FilterD("", r.count, r.deny))
+    IN /\ msort' = r.sort /\ mgen' = r.gen
        /\ prevCount' = IF ~cleared /\ r.count # prevCount THEN r.count ELSE prevCount
        /\ IF hit \/ immediate
           THEN /\ ebox' = [ebox EXCEPT !.searchFin = m]
@@ -123,73 +136,95 @@ MaPick == /\ mst = "idle" /\ Slots # {}
                /\ dev' = IF k # Newest THEN dev \cup {"ServeOlderSlot"} ELSE dev
                /\ PickCont(rbox[k])
           /\ rbox' = [retry |-> None, reset |-> None]
-          /\ UNCHANGED <<pushed, rdFin, reading, snapCount, cq, csort, reqNo, ccache, tinput, tsort, tlist, edits>>
+          /\ UNCHANGED <<pushed, rdFin, reading, snapCount, cq, csort, reqNo, ccache, tinput, tsort, tlist, edits, deny, gen, wanted>>
 
 CEntry(c, key) == {e \in ccache : e.c = c /\ e.key = key}
+(* The chunk cache is keyed by (chunk, cache key) only; entries are tagged here with the exclusion generation they   *)
+(* were computed under (ghost).  An exact hit on an entry of another generation is the deviation StaleChunkCache     *)
+(* (finding F17): the coordinator clears the cache when it applies an exclusion, but a request of the older          *)
+(* generation that is served afterwards puts entries back.                                                           *)
 MaChunk(c) ==
     /\ mst = "scanning" /\ c \in 1..NumChunks(mreq.count) /\ c \notin mdone
     /\ LET n == mreq.count
            key == mreq.q
-           usable == Cacheable(c, n)
+           usable == Cacheable(c, n) /\ key # ""
            exact == IF usable THEN CEntry(c, key) ELSE {}
            narrow == IF usable THEN UNION {CEntry(c, k2) : k2 \in Narrower(key)} ELSE {}
-       IN \E space \in (IF exact # {} THEN {(CHOOSE e \in exact : TRUE).items}
+       IN \E hit \in (IF exact # {} THEN exact ELSE {None}) :
+          \E space \in (IF hit # None THEN {hit.items}
                         ELSE IF narrow # {} THEN {e.items : e \in narrow} ELSE {ChunkItems(c, n)}) :
-            LET matches == IF exact # {} THEN space ELSE {i \in space : Holds(key, i)}
+            LET matches == IF hit # None THEN space ELSE {i \in space : Holds(key, i) /\ i \notin mreq.deny}
             IN /\ macc' = macc \cup matches
-               /\ ccache' = IF usable /\ exact = {} /\ Cardinality(matches) <= QueryCacheMax
-                            THEN ccache \cup {[c |-> c, key |-> key, items |-> matches]} ELSE ccache
+               /\ ccache' = IF usable /\ hit = None /\ Cardinality(matches) <= QueryCacheMax
+                            THEN ccache \cup {[c |-> c, key |-> key, items |-> matches, gen |-> mreq.gen]} ELSE ccache
+               /\ dev' = IF hit # None /\ hit.gen # mreq.gen THEN dev \cup {"StaleChunkCache"} ELSE dev
     /\ mdone' = mdone \cup {c}
     /\ UNCHANGED <<pushed, rdFin, ebox, reading, snapCount, cq, csort, rbox, reqNo, mst, mreq, msort, prevCount, mcache,
-                   tinput, tsort, tlist, edits, dev>>
+                   tinput, tsort, tlist, edits, deny, gen, mgen, wanted>>
 
 (* the scan loop peeks at the request box between chunks; only a cancelling request interrupts *)
 MaSeeReset == /\ mst = "scanning" /\ rbox.reset # None /\ mdone # {} /\ mdone # 1..NumChunks(mreq.count)
               /\ mst' = "idle" /\ mreq' = None /\ mdone' = {} /\ macc' = {}
               /\ UNCHANGED <<pushed, rdFin, ebox, reading, snapCount, cq, csort, rbox, reqNo, msort, prevCount, mcache, ccache,
-                             tinput, tsort, tlist, edits, dev>>
+                             tinput, tsort, tlist, edits, dev, deny, gen, mgen, wanted>>
 MaPublish == /\ mst = "scanning" /\ mdone = 1..NumChunks(mreq.count)
              /\ LET m == Merger(mreq, macc)
                 IN /\ ebox' = [ebox EXCEPT !.searchFin = m]
                    /\ mcache' = [mcache EXCEPT ![mreq.q] = m]
              /\ mst' = "idle" /\ mreq' = None /\ mdone' = {} /\ macc' = {}
              /\ UNCHANGED <<pushed, rdFin, reading, snapCount, cq, csort, rbox, reqNo, msort, prevCount, ccache,
-                            tinput, tsort, tlist, edits, dev>>
+                            tinput, tsort, tlist, edits, dev, deny, gen, mgen, wanted>>
 
 -------------------------------------------------------------------------------
 (* Terminal *)
+(* EvtSearchNew is a one-slot box: a new request overwrites a pending one.  The terminal builds every request from    *)
+(* scratch, so an exclusion list carried by a pending request is lost when the next query-changing action arrives     *)
+(* before the coordinator took it - deviation LostExclusion (finding F21).                                            *)
+SearchNewVal(d) == [sort |-> tsort', deny |-> d]
+Overwrites == ebox.searchNew # None /\ ebox.searchNew.deny # {}
 TeEdit(q) == /\ edits < MaxEdits /\ q # tinput
-             /\ tinput' = q /\ edits' = edits + 1
-             /\ ebox' = [ebox EXCEPT !.searchNew = TRUE]
+             /\ tinput' = q /\ edits' = edits + 1 /\ tsort' = tsort
+             /\ ebox' = [ebox EXCEPT !.searchNew = SearchNewVal({})]
+             /\ dev' = IF Overwrites THEN dev \cup {"LostExclusion"} ELSE dev
              /\ UNCHANGED <<pushed, rdFin, reading, snapCount, cq, csort, rbox, reqNo, mst, mreq, mdone, macc, msort, prevCount,
-                            mcache, ccache, tsort, tlist, dev>>
+                            mcache, ccache, tlist, deny, gen, mgen, wanted>>
 TeToggleSort == /\ edits < MaxEdits
                 /\ tsort' = ~tsort /\ edits' = edits + 1
-                /\ ebox' = [ebox EXCEPT !.searchNew = TRUE]
+                /\ ebox' = [ebox EXCEPT !.searchNew = SearchNewVal({})]
+                /\ dev' = IF Overwrites THEN dev \cup {"LostExclusion"} ELSE dev
                 /\ UNCHANGED <<pushed, rdFin, reading, snapCount, cq, csort, rbox, reqNo, mst, mreq, mdone, macc, msort,
-                               prevCount, mcache, ccache, tinput, tlist, dev>>
+                               prevCount, mcache, ccache, tinput, tlist, deny, gen, mgen, wanted>>
+(* exclude: the item under the cursor - any item of the list on display *)
+TeExclude(i) == /\ edits < MaxEdits /\ tlist # None /\ i \in tlist.items
+                /\ edits' = edits + 1 /\ wanted' = wanted \cup {i} /\ tsort' = tsort
+                /\ ebox' = [ebox EXCEPT !.searchNew = SearchNewVal({i})]
+                /\ dev' = IF Overwrites THEN dev \cup {"LostExclusion"} ELSE dev
+                /\ UNCHANGED <<pushed, rdFin, reading, snapCount, cq, csort, rbox, reqNo, mst, mreq, mdone, macc, msort,
+                               prevCount, mcache, ccache, tinput, tlist, deny, gen, mgen>>
 
 System == RdPush \/ RdFin \/ CoWake \/ MaPick \/ (\E c \in 1..NumChunks(MaxItems) : MaChunk(c)) \/ MaSeeReset \/ MaPublish
-User == (\E q \in Queries : TeEdit(q)) \/ TeToggleSort
+User == (\E q \in Queries : TeEdit(q)) \/ TeToggleSort \/ (\E i \in 1..MaxItems : TeExclude(i))
 Next == System \/ User
 Spec == Init /\ [][Next]_vars /\ WF_vars(System)
 
 -------------------------------------------------------------------------------
 (* Properties (C08, C13) *)
-IsFilter(m) == m.items = Filter(m.q, m.count)
+IsFilter(m) == m.items = FilterD(m.q, m.count, m.deny)
 (* every result handed to the coordinator is the sequential filter of the snapshot it was asked for - never partial *)
-PublishedIsFilter == ebox.searchFin # None => IsFilter(ebox.searchFin)
-ShownIsFilter == tlist # None => IsFilter(tlist)
-MergerCacheSound == \A q \in Queries : mcache[q] # None => IsFilter(mcache[q]) /\ mcache[q].q = q
+PublishedIsFilter == (ebox.searchFin # None /\ "StaleChunkCache" \notin dev) => IsFilter(ebox.searchFin)
+ShownIsFilter == (tlist # None /\ "StaleChunkCache" \notin dev) => IsFilter(tlist)
+MergerCacheSound == "StaleChunkCache" \notin dev => \A q \in Queries : mcache[q] # None => IsFilter(mcache[q]) /\ mcache[q].q = q
 (* chunk cache entries exist only for full, shared chunks and hold exactly that chunk's matches *)
 ChunkCacheSound == \A e \in ccache : /\ Cardinality(ChunkItems(e.c, pushed)) = ChunkSize
-                                     /\ e.items = {i \in ChunkItems(e.c, pushed) : Holds(e.key, i)}
+                                     /\ (e.gen = gen /\ "StaleChunkCache" \notin dev => e.items = {i \in ChunkItems(e.c, pushed) : Holds(e.key, i) /\ i \notin deny})
                                      /\ Cardinality(e.items) <= QueryCacheMax
 Quiescent == ~ENABLED System
 Converged == /\ tlist # None /\ tlist.q = tinput /\ tlist.count = pushed /\ tlist.final /\ tlist.sort = tsort
-             /\ tlist.items = Filter(tinput, pushed)
+             /\ tlist.items = FilterD(tinput, pushed, wanted)
 (* once input has ended and nothing is pending, the list is the fresh filter of the current query (C08) *)
 Convergence == (Quiescent /\ dev = {}) => Converged
+NeverStale == "StaleChunkCache" \notin dev      \* violated: the model reproduces finding F17
+NeverLost == "LostExclusion" \notin dev        \* violated: the model reproduces finding F21
 ConvergenceStrict == Quiescent => Converged     \* violated when AllowOlder (deviation ServeOlderSlot, finding F5)
 Liveness == <>[](~ENABLED System)
 ================================================================================
